@@ -84,6 +84,13 @@ void *__wrap_realloc(void *q, size_t n) {
 }
 
 int __wrap_posix_memalign(void **out, size_t align, size_t size) {
+#ifdef SBA_SCHED
+    /* a schedule point INSIDE the bin operation (the page request of s_sba_alloc_from_bin): under the bin mutex nobody
+     * else can enter the same bin here; an operation that runs outside its lock is interleaved at this point */
+    if (align == size && align >= 1024 && ds_self_ordinal() >= 0) {
+        ds_yield(1);
+    }
+#endif
     int rc = __real_posix_memalign(out, align, size);
     if (s_in_backend && rc == 0) {
         __atomic_fetch_add(&s_backend_live, 1, __ATOMIC_SEQ_CST);
@@ -108,6 +115,11 @@ int __wrap_posix_memalign(void **out, size_t align, size_t size) {
 }
 
 void __wrap_free(void *p) {
+#ifdef SBA_SCHED
+    if (p && (((uintptr_t)p) & 4095) == 0 && s_pg_n && ds_self_ordinal() >= 0) {
+        ds_yield(2); /* inside s_sba_free_to_bin: the page is about to go back to the OS */
+    }
+#endif
     if (s_in_backend && p) {
         __atomic_fetch_sub(&s_backend_live, 1, __ATOMIC_SEQ_CST);
     }
@@ -984,6 +996,9 @@ static void s_sc_run(const struct ds_config *cfg, struct sc_verdict *v) {
     s_sc_ops = 0;
     v->rc = ds_run(s_sc_main, NULL);
     long n_locks = 0;
+    if (getenv("SBA_DUMP_EVENTS")) {
+        ds_dump_events(stdout);
+    }
     for (size_t i = 0; i < ds_event_count(); ++i) {
         if (ds_event_at(i)->kind == DS_LOCK) {
             ++n_locks;
@@ -1416,11 +1431,17 @@ int main(void) {
                 s_fill(b);
             }
             s_status();
-        } else if (!strcmp(t[0], "rel") && n == 2) {
+        } else if ((!strcmp(t[0], "rel") && n == 2) || (!strcmp(t[0], "reltag") && n == 3)) {
             struct blk *b = s_find(t[1]);
             if (!b) {
                 printf("bad-op\n");
                 continue;
+            }
+            if (n == 3 && s_touch_of(b->size) >= 32) {
+                /* the caller's own data carries ONE of the two tag words where a page header would have it (a
+                 * page-aligned parent block starts at its own page base): the block is still the parent's */
+                uint64_t tagv = 0x736f6d6570736575ULL; /* AWS_SBA_TAG_VALUE */
+                memcpy(b->ptr + (atoi(t[2]) == 2 ? 24 : 0), &tagv, sizeof(tagv));
             }
             aws_mem_release(s_sba, b->ptr);
             /* keep table order stable (the order is not observable, but keep it simple) */
